@@ -77,7 +77,11 @@ func Snapshot(dir string) (*vfs.Node, error) {
 	if fi.Mode()&os.ModeSymlink != 0 {
 		// a symbolic link to a regular file is a file resource holding what the link refers to (the symlink
 		// families place the targets outside the served directory); other links are not part of any generated tree
-		if fi, err = os.Stat(dir); err != nil || !fi.Mode().IsRegular() {
+		target, _ := os.Readlink(dir)
+		if fi, err = os.Stat(dir); os.IsNotExist(err) {
+			// a link that leads nowhere (model-free families only): a leaf whose "content" names the link
+			return vfs.NewFile("\x00dangling symbolic link to " + target), nil
+		} else if err != nil || !fi.Mode().IsRegular() {
 			return nil, fmt.Errorf("unexpected symlink %s", dir)
 		}
 	}
